@@ -417,18 +417,28 @@ func enumerate(quick bool, yield func(p *Program)) {
 		for _, x := range U {
 			for _, y := range U {
 				for _, t := range U {
+					if k == 1 && quick && !(t == x || t == y || t == tAny) {
+						continue
+					}
 					st := cat(passes(k, 1), sB(y, lam("b", t, tString), pass("p9")))
 					emit(fromStages(fmt.Sprintf("pass%d-branch-arms", k), x, tAny, st, true))
 				}
 			}
 		}
 	}
-	// T7  START(string) -> a[string>X] -> branch cond[Y] -> {b[T>string], c[T>string]} -> END(any)       (branch on a typed node)
+	// T7  START(string) -> a[string>X] -> branch cond[Y] -> {b[T>string], c[T>string] | END} -> END(any)       (branch on a typed node)
 	for _, x := range U {
 		for _, y := range U {
 			for _, t := range U {
+				// graph: targets {b, END} (five calls); chain: two typed arms
+				emit(fromCalls("lambda-branch-end", tString, tAny, []*Node{lam("a", tString, x), lam("b", t, tString)},
+					[]Call{edge(START, "a"), branch("a", y, "b", END), edge("b", END)}))
 				st := []Stage{sL(lam("a", tString, x)), sB(y, lam("b", t, tString), lam("c", t, tString))}
-				emit(fromStages("lambda-branch", tString, tAny, st, true))
+				for _, p := range fromStages("lambda-branch", tString, tAny, st, true) {
+					if p.Container == "chain" || !quick {
+						yield(p)
+					}
+				}
 			}
 		}
 	}
@@ -447,6 +457,9 @@ func enumerate(quick bool, yield func(p *Program)) {
 	// T8  START(string) -> branch cond[string] -> {a[string>X1], b[string>X2]} -> p1 pass -> END(Y)   (fan-in on a pass-through)
 	for _, x1 := range U {
 		for _, x2 := range U {
+			if x2 < x1 {
+				continue // the two arms are interchangeable: (X1,X2) and (X2,X1) are the same program up to node names
+			}
 			for _, y := range U {
 				st := []Stage{sB(tString, lam("a", tString, x1), lam("b", tString, x2)), sP(pass("p1"))}
 				emit(fromStages("branch-fanin-pass", tString, y, st, true))
@@ -457,6 +470,9 @@ func enumerate(quick bool, yield func(p *Program)) {
 	for _, x := range U {
 		for _, y := range U {
 			for _, t := range U {
+				if quick && !(t == x || t == y || t == tAny) {
+					continue
+				}
 				st := []Stage{sB(y, pass("p1"), pass("p2")), sL(lam("b", t, tString))}
 				emit(fromStages("branch-pass-arms", x, tAny, st, true))
 			}
@@ -517,6 +533,9 @@ func enumerate(quick bool, yield func(p *Program)) {
 	}
 	// G1  fan-out from a pass-through: START(X) -> p1 -> {b[Y1>map], c[Y2>map]}; b -> END(map)   (c is a dead end: its output is dropped)
 	for _, x := range U {
+		if quick && (x == tPB || x == tI2 || x == tMap) {
+			continue // quick: X over {string,int,A,I1,any}
+		}
 		for _, y1 := range U {
 			for _, y2 := range U {
 				emit(fromCalls("pass-fanout", x, tMap, []*Node{pass("p1"), lam("b", y1, tMap), lam("c", y2, tMap)},
@@ -528,8 +547,9 @@ func enumerate(quick bool, yield func(p *Program)) {
 	for _, x := range U {
 		for _, y1 := range U {
 			for _, y2 := range U {
+				// any-predecessor mode only: with AllPredecessor END would wait for b and merge two non-map values
 				emit(fromCalls("pass-two-branches", x, tAny, []*Node{pass("p1"), lam("b", tAny, tString)},
-					[]Call{edge(START, "p1"), branch("p1", y1, "b", END), branch("p1", y2, "b", END), edge("b", END)}))
+					[]Call{edge(START, "p1"), branch("p1", y1, "b", END), branch("p1", y2, "b", END), edge("b", END)})[:1])
 			}
 		}
 	}
